@@ -3,7 +3,7 @@
 import json, glob, os, re
 root = "/verif"
 rows = []
-for p in [root + "/known_findings.json"] + sorted(glob.glob(root + "/known_findings.d/*.json")):
+for p in [root + "/known_findings.json"]:
     for e in json.load(open(p))["findings"]:
         rows.append(e)
 rows.sort(key=lambda e: (e["property"], e["status"], e["signature"]))
